@@ -479,6 +479,13 @@ def build(spec, check=True):
     # would hand over *after* declaring inputs/outputs; (value_info dimension is explored separately)
     if not spec.get("keep_value_info", False):
         del mi.graph.value_info[:]
+    if spec.get("sym_out_dims", False):
+        for j, vi_ in enumerate(mi.graph.output):
+            tt = vi_.type.tensor_type
+            if vi_.type.WhichOneof("value") == "tensor_type" and tt.HasField("shape"):
+                for k_, d in enumerate(tt.shape.dim):
+                    d.ClearField("dim_value")
+                    d.dim_param = f"o{j}_d{k_}"
     if spec.get("anon_out_dims", False):
         # write the unknown dims that shape inference named unk__N anonymously (neither dim_value nor dim_param)
         for vi_ in list(mi.graph.output) + list(mi.graph.value_info):
